@@ -672,10 +672,13 @@ impl<P: consensus::Parameters> DeferredPcztBuilder<P> {
         mut rng: R,
         fee_rule: &FR,
     ) -> Result<PcztResult<P>, Error<FR::Error>> {
+        // A bundle whose padding policy requires it is charged for by `get_fee` even when
+        // nothing was added to it, so it has to be built as well.
         fn in_use(builder: &orchard::builder::Builder) -> bool {
             !builder.spends().is_empty()
                 || !builder.outputs().is_empty()
                 || !builder.changes().is_empty()
+                || bundle_required(builder)
         }
 
         let fee = self.get_fee(fee_rule).map_err(Error::Fee)?;
